@@ -1,0 +1,175 @@
+//! Verification hooks (only compiled with the `verif-hooks` feature).
+//!
+//! A tiny schedule controller: code under verification calls [`pause`] /
+//! [`pause_sync`] at named points. These are no-ops unless a harness armed the
+//! point, in which case the caller is parked until the harness releases it.
+//! [`event`] appends to a global lifecycle log the harness can drain.
+#![allow(missing_docs, clippy::unwrap_used, missing_debug_implementations)]
+
+use std::{
+    collections::{HashMap, HashSet},
+    future::Future,
+    pin::Pin,
+    sync::{Condvar, Mutex, OnceLock},
+    task::{Context, Poll, Waker},
+    time::{Duration, Instant},
+};
+
+#[derive(Default)]
+struct State {
+    armed: HashSet<String>,
+    next_ticket: u64,
+    /// ticket -> (point, released, waker)
+    parked: HashMap<u64, (String, bool, Option<Waker>)>,
+    log: Vec<(u64, String, String)>,
+    seq: u64,
+}
+
+struct Ctl {
+    st: Mutex<State>,
+    cv: Condvar,
+}
+
+fn ctl() -> &'static Ctl {
+    static C: OnceLock<Ctl> = OnceLock::new();
+    C.get_or_init(|| Ctl {
+        st: Mutex::new(State::default()),
+        cv: Condvar::new(),
+    })
+}
+
+/// Arms a pause point: later arrivals at it park until released.
+pub fn arm(point: &str) {
+    ctl().st.lock().unwrap().armed.insert(point.to_string());
+}
+
+/// Disarms a pause point (already parked callers stay parked until released).
+pub fn disarm(point: &str) {
+    ctl().st.lock().unwrap().armed.remove(point);
+}
+
+/// Disarms everything, releases everyone, clears the log.
+pub fn reset() {
+    let c = ctl();
+    let mut st = c.st.lock().unwrap();
+    st.armed.clear();
+    for (_, (_, released, waker)) in st.parked.iter_mut() {
+        *released = true;
+        if let Some(w) = waker.take() {
+            w.wake();
+        }
+    }
+    st.log.clear();
+    c.cv.notify_all();
+}
+
+/// Tickets currently parked at `point` (not yet released), oldest first.
+pub fn parked_at(point: &str) -> Vec<u64> {
+    let st = ctl().st.lock().unwrap();
+    let mut v: Vec<u64> = st
+        .parked
+        .iter()
+        .filter(|(_, (p, released, _))| p == point && !*released)
+        .map(|(t, _)| *t)
+        .collect();
+    v.sort();
+    v
+}
+
+/// Blocks the calling (harness) thread until someone is parked at `point`.
+pub fn wait_parked_blocking(point: &str, timeout: Duration) -> Option<u64> {
+    let deadline = Instant::now() + timeout;
+    loop {
+        if let Some(t) = parked_at(point).first() {
+            return Some(*t);
+        }
+        if Instant::now() >= deadline {
+            return None;
+        }
+        std::thread::sleep(Duration::from_millis(1));
+    }
+}
+
+/// Releases one parked caller.
+pub fn release(ticket: u64) {
+    let c = ctl();
+    let mut st = c.st.lock().unwrap();
+    if let Some((_, released, waker)) = st.parked.get_mut(&ticket) {
+        *released = true;
+        if let Some(w) = waker.take() {
+            w.wake();
+        }
+    }
+    c.cv.notify_all();
+}
+
+/// Appends to the lifecycle log.
+pub fn event(name: &str, detail: impl Into<String>) {
+    let mut st = ctl().st.lock().unwrap();
+    st.seq += 1;
+    let seq = st.seq;
+    st.log.push((seq, name.to_string(), detail.into()));
+}
+
+/// Drains the lifecycle log.
+pub fn take_log() -> Vec<(u64, String, String)> {
+    std::mem::take(&mut ctl().st.lock().unwrap().log)
+}
+
+fn park(point: &str) -> Option<u64> {
+    let mut st = ctl().st.lock().unwrap();
+    if !st.armed.contains(point) {
+        return None;
+    }
+    st.next_ticket += 1;
+    let t = st.next_ticket;
+    st.parked.insert(t, (point.to_string(), false, None));
+    st.seq += 1;
+    let seq = st.seq;
+    st.log.push((seq, "parked".to_string(), format!("{point}#{t}")));
+    Some(t)
+}
+
+/// Synchronous pause point.
+pub fn pause_sync(point: &str) {
+    let Some(t) = park(point) else { return };
+    let c = ctl();
+    let mut st = c.st.lock().unwrap();
+    while !st.parked.get(&t).map(|p| p.1).unwrap_or(true) {
+        st = c.cv.wait(st).unwrap();
+    }
+    st.parked.remove(&t);
+}
+
+struct PauseFut(u64);
+
+impl Future for PauseFut {
+    type Output = ();
+    fn poll(self: Pin<&mut Self>, cx: &mut Context<'_>) -> Poll<()> {
+        let mut st = ctl().st.lock().unwrap();
+        match st.parked.get_mut(&self.0) {
+            None => Poll::Ready(()),
+            Some((_, true, _)) => {
+                st.parked.remove(&self.0);
+                Poll::Ready(())
+            }
+            Some((_, false, waker)) => {
+                *waker = Some(cx.waker().clone());
+                Poll::Pending
+            }
+        }
+    }
+}
+
+impl Drop for PauseFut {
+    fn drop(&mut self) {
+        ctl().st.lock().unwrap().parked.remove(&self.0);
+    }
+}
+
+/// Asynchronous pause point.
+pub async fn pause(point: &str) {
+    if let Some(t) = park(point) {
+        PauseFut(t).await
+    }
+}
